@@ -66,3 +66,269 @@ package service
 //@   props C07 C18
 //@   requires capacity <= MaxCapacity
 //@   ensures result.capacity == capacity && result.active != nil && len(result.active) == 0 && result.archive == nil
+
+// ---------------------------------------------------------------------------
+// Interfaces implemented in this package: calls are checked against the
+// contract of the (only non-test) implementation.
+// ---------------------------------------------------------------------------
+
+//@ dispatch service.CipherList.SnapshotForClientIP service.(*cipherList).SnapshotForClientIP
+//@ dispatch service.CipherList.MarkUsedByClientIP service.(*cipherList).MarkUsedByClientIP
+//@ dispatch service.CipherList.Update service.(*cipherList).Update
+
+// ---------------------------------------------------------------------------
+// Validity predicates (type / construction invariants of the inputs)
+// ---------------------------------------------------------------------------
+
+//@ pred validEntry(e *CipherEntry) := e != nil && e.CryptoKey != nil && e.SaltGenerator != nil
+//@ pred validElem(e *list.Element) := e != nil && typeis(e.Value, "*service.CipherEntry") && validEntry(as(e.Value, "*service.CipherEntry"))
+//@ pred validStreamHandler(h *streamHandler) := h != nil && h.logger != nil && h.authenticate != nil && h.dialer != nil
+//@ pred validPacketHandler(h *packetHandler) := h != nil && h.logger != nil && h.ciphers != nil && h.m != nil && h.ssm != nil && h.targetIPValidator != nil
+
+// Logging helpers are used modularly so that their branches do not multiply the callers' paths.
+//@ func debugTCP
+//@   props C18
+//@   requires l != nil
+//@ func debugUDP
+//@   props C18
+//@   requires l != nil
+//@ func debugUDPAddr
+//@   props C18
+//@   requires l != nil && addr != nil
+
+// ---------------------------------------------------------------------------
+// TCP: key finding and authentication (C01, C06, C07, C08, C18)
+// ---------------------------------------------------------------------------
+
+//@ func remoteIP
+//@   props C18
+//@   requires conn != nil
+
+//@ func findEntry
+//@   props C01 C18
+//@   requires len(firstBytes) == bytesForKeyFinding && l != nil
+//@   requires forall i int :: 0 <= i && i < len(ciphers) ==> validElem(ciphers[i])
+//@   ensures result.0 != nil ==> validEntry(result.0) && validElem(result.1) && result.0 == as(result.1.Value, "*service.CipherEntry")
+//@   ensures result.0 == nil ==> result.1 == nil
+
+//@ func findAccessKey
+//@   props C01 C02 C06 C18
+//@   requires clientReader != nil && cipherList != nil && l != nil
+//@   ensures result.4 == nil ==> validEntry(result.0) && result.1 != nil
+//@   ensures result.4 == nil ==> len(result.2) == pure("shadowsocks.(*EncryptionKey).SaltSize", result.0.CryptoKey)
+//@   ensures result.4 != nil ==> result.0 == nil
+//@   trace[C06,fixed-read] exactly 1 io.ReadFull
+
+// The authenticator installed in a stream handler (a function value): its contract
+// is what NewShadowsocksStreamAuthenticator$1 is verified against.
+//@ func streamHandler.authenticate
+//@   abstract
+//@   params clientConn
+//@   requires clientConn != nil
+//@   ensures result.2 == nil ==> result.1 != nil
+//@   ensures result.2 != nil ==> result.1 == nil
+
+//@ func NewShadowsocksStreamAuthenticator$1
+//@   props C01 C06 C07 C08 C18
+//@   requires clientConn != nil && ciphers != nil && metrics != nil && l != nil
+//@   ensures result.2 == nil ==> result.1 != nil
+//@   ensures result.2 != nil ==> result.1 == nil
+
+//@ func NewShadowsocksStreamAuthenticator
+//@   props C18
+//@   requires ciphers != nil
+
+//@ func ensureConnectionError
+//@   props C18
+//@   ensures err != nil ==> result != nil
+//@   ensures err == nil ==> result == nil
+
+//@ func drainErrToString
+//@   props C18
+
+//@ func getProxyRequest
+//@   props C18
+//@   requires clientConn != nil
+
+//@ func (*streamHandler).absorbProbe
+//@   props C06 C15 C18
+//@   requires validStreamHandler(h) && clientConn != nil && connMetrics != nil && proxyMetrics != nil
+
+//@ func (*streamHandler).handleConnection
+//@   props C01 C05 C06 C15 C18
+//@   requires validStreamHandler(h) && ctx != nil && outerConn != nil && connMetrics != nil && proxyMetrics != nil
+
+//@ func (*streamHandler).handleConnection$1
+//@   props C05 C18
+//@   requires h != nil && h.dialer != nil && proxyMetrics != nil
+
+//@ func proxyConnection
+//@   props C02 C15 C18
+//@   requires l != nil && ctx != nil && dialer != nil && clientConn != nil
+
+//@ func proxyConnection$1
+//@   props C02 C18
+//@   goroutine
+//@   requires tgtConn != nil && clientConn != nil && fromClientErrCh != nil && !closed(fromClientErrCh)
+
+//@ func (*streamHandler).Handle
+//@   props C06 C15 C18
+//@   requires validStreamHandler(h) && ctx != nil && clientConn != nil
+
+//@ func StreamServe
+//@   props C11 C18
+//@   requires accept != nil && handle != nil
+
+//@ func StreamServe$1
+//@   props C18
+//@   goroutine
+//@   must-recover
+//@   requires clientConn != nil && handle != nil && running != nil
+
+// ---------------------------------------------------------------------------
+// Key list (C01, C18, C19)
+// ---------------------------------------------------------------------------
+
+//@ guarded cipherList.{list} by cipherList.mu
+//@ guarded CipherEntry.{ID,CryptoKey,SaltGenerator} class immutable public fields are constant after MakeCipherEntry
+//@ guarded CipherEntry.{lastClientIP} class confined written only under cipherList.mu of the list that holds the entry (checked at the two access sites below)
+
+//@ pred matches(e *list.Element, ip netip.Addr) := ip != 0 && ip == as(e.Value, "*service.CipherEntry").lastClientIP
+
+//@ func matchesIP
+//@   props C01 C18
+//@   requires validElem(e)
+//@   ensures result == matches(e, clientIP)
+
+//@ func (*cipherList).SnapshotForClientIP
+//@   unverified counting proof over the container/list model not built yet
+//@   requires cl != nil
+//@   ensures forall i int :: 0 <= i && i < len(result) ==> validElem(result[i])
+
+//@ func (*cipherList).MarkUsedByClientIP
+//@   props C01 C18 C19
+//@   atomic
+//@   requires cl != nil && validElem(e)
+
+//@ func (*cipherList).Update
+//@   props C18 C19
+//@   atomic
+//@   requires cl != nil
+
+//@ func MakeCipherEntry
+//@   props C08 C18
+//@   requires cryptoKey != nil
+//@   ensures result.CryptoKey == cryptoKey && result.ID == id && result.SaltGenerator != nil
+
+// ---------------------------------------------------------------------------
+// UDP (C03, C04, C05, C14, C16, C18, C19)
+// ---------------------------------------------------------------------------
+
+//@ guarded natmap.{keyConn} by natmap.RWMutex
+//@ guarded natconn.{PacketConn,cryptoKey,metrics,defaultTimeout} class immutable set once in natmap.set before the entry is published
+//@ guarded natconn.{readDeadline,fastClose} class confined touched only by the receive loop of the owning packet handler (onWrite) and by its timedCopy goroutine through fastClose (a sync.Once)
+
+//@ pred validNatconn(c *natconn) := c != nil && c.PacketConn != nil && c.cryptoKey != nil && c.metrics != nil
+//@ pred validNatmap(m *natmap) := m != nil && m.metrics != nil && m.logger != nil
+//@ lockinv[C04] natmap.RWMutex(m) := m.keyConn != nil && (forall k string :: has(m.keyConn, k) ==> validNatconn(m.keyConn[k]))
+
+// Metrics interfaces implemented outside this package (function-value style contracts).
+//@ func UDPMetrics.AddUDPNatEntry
+//@   abstract
+//@   params m clientAddr accessKey
+//@   ensures result != nil
+
+//@ func findAccessKeyUDP
+//@   props C03 C18
+//@   requires cipherList != nil && l != nil && dst != nil && dst.$arr != src.$arr
+//@   ensures result.3 == nil ==> result.2 != nil && len(result.0) >= 0
+//@   ensures result.3 == nil ==> result.0.$arr == dst.$arr
+
+//@ func NewPacketHandler
+//@   props C05 C18
+//@   requires cipherList != nil
+
+//@ func (*packetHandler).validatePacket
+//@   props C03 C05 C18
+//@   requires validPacketHandler(h)
+//@   ensures result.2 == nil ==> result.1 != nil
+//@   ensures result.2 == nil ==> result.0.$arr == textData.$arr && len(result.0) <= len(textData)
+
+//@ func isDNS
+//@   props C14 C18
+//@   requires addr != nil
+
+//@ func (*natconn).onWrite
+//@   props C14 C18
+//@   requires validNatconn(c) && addr != nil
+//@ func (*natconn).onRead
+//@   props C14 C18
+//@   requires validNatconn(c) && addr != nil
+//@ func (*natconn).WriteTo
+//@   props C14 C18
+//@   requires validNatconn(c) && dst != nil
+//@   ensures 0 <= result.0 && result.0 <= len(buf)
+//@ func (*natconn).ReadFrom
+//@   props C14 C18
+//@   requires validNatconn(c)
+//@   ensures 0 <= result.0 && result.0 <= len(buf)
+//@   ensures result.2 == nil ==> result.1 != nil
+
+//@ func newNATmap
+//@   props C04 C18
+//@   ensures validNatmap(result) == (sm != nil && l != nil)
+
+//@ func (*natmap).Get
+//@   props C04 C18 C19
+//@   atomic
+//@   requires validNatmap(m)
+//@   ensures result != nil ==> validNatconn(result)
+
+//@ func (*natmap).set
+//@   props C04 C18 C19
+//@   atomic
+//@   requires validNatmap(m) && pc != nil && cryptoKey != nil && connMetrics != nil
+//@   ensures validNatconn(result) && result.cryptoKey == cryptoKey && result.PacketConn == pc && result.metrics == connMetrics
+
+//@ func (*natmap).del
+//@   props C04 C18 C19
+//@   atomic
+//@   requires validNatmap(m)
+
+//@ func (*natmap).Add
+//@   props C04 C16 C18
+//@   requires validNatmap(m) && clientAddr != nil && clientConn != nil && cryptoKey != nil && targetConn != nil
+//@   ensures validNatconn(result) && result.cryptoKey == cryptoKey
+
+//@ func (*natmap).Add$1
+//@   props C04 C14 C16 C18
+//@   goroutine
+//@   requires validNatmap(m) && clientAddr != nil && clientConn != nil && validNatconn(entry) && connMetrics != nil
+
+//@ func (*natmap).Close
+//@   props C14 C18 C19
+//@   requires validNatmap(m)
+
+//@ func (*packetHandler).Handle
+//@   props C03 C14 C16 C18
+//@   requires validPacketHandler(h) && clientConn != nil
+
+// The per-datagram closure of Handle (runs under a deferred recover).
+//@ func (*packetHandler).Handle$1
+//@   props C03 C04 C05 C16 C18
+//@   must-recover
+//@   requires validPacketHandler(h) && validNatmap(nm) && clientConn != nil
+//@   requires len(cipherBuf) == serverUDPBufferSize && len(textBuf) == serverUDPBufferSize && cipherBuf.$arr != textBuf.$arr
+//@   requires 0 <= clientProxyBytes && clientProxyBytes <= len(cipherBuf) && targetConn == nil && proxyTargetBytes == 0
+//@   requires err == nil ==> clientAddr != nil && typeis(clientAddr, "*net.UDPAddr") && as(clientAddr, "*net.UDPAddr") != nil
+//@   ensures targetConn != nil ==> validNatconn(targetConn)
+
+//@ func timedCopy
+//@   props C03 C14 C16 C18
+//@   requires clientAddr != nil && clientConn != nil && validNatconn(targetConn) && l != nil
+
+//@ func timedCopy$1
+//@   props C03 C04 C16 C18
+//@   requires clientAddr != nil && clientConn != nil && validNatconn(targetConn) && l != nil
+//@   requires len(pkt) == serverUDPBufferSize
+//@   requires saltSize == pure("shadowsocks.(*EncryptionKey).SaltSize", targetConn.cryptoKey) && bodyStart == saltSize + maxAddrLen
